@@ -206,3 +206,135 @@ def run(ctx, rep):
         if not ok:
             rep.violation('N5', vkey('N5', name, 'fold-both', ''), fn.loc(fn.span),
                           '%s applies the case-folding function to only %d operand stream(s)' % (name, n))
+
+    # ---------------- N5b equality needs both sequences exhausted
+    EQ = facts.fns.get('fatfs::dir_entry::DirEntry::eq_name_lfn')
+    if EQ is not None:
+        seq_equality_rule(rep, EQ)
+
+
+def seq_equality_rule(rep, fn):
+    """a loop that compares two sequences element by element may only report `equal` after it has seen the end of
+    BOTH: every path to a possibly-true result crosses the None edge of a `next()` on the stored-name iterator and on
+    the requested-name iterator (or the result *is* that exhaustion test)"""
+    from analyses import switch_source
+    from model import op_const, op_place
+
+    defs = {}
+    multi = set()
+    for bi in fn.reachable():
+        for s in fn.blocks[bi]['stmts']:
+            if s['k'] == 'assign' and not s['lhs']['p']:
+                l = s['lhs']['l']
+                if l in defs:
+                    multi.add(l)
+                defs[l] = ('stmt', s['rv'], bi)
+        t = fn.blocks[bi]['term']
+        if t['k'] == 'call' and not t['dest']['p']:
+            l = t['dest']['l']
+            if l in defs:
+                multi.add(l)
+            defs[l] = ('call', t, bi)
+
+    def origin(local, depth=0):
+        """'S' (stored long name), 'Q' (requested name, parameter 2) or None; an iterator made from an *element* of a
+        sequence (something that came out of next()) is neither"""
+        if depth > 25:
+            return None
+        if local == 2:
+            return 'Q'
+        if local in multi or local not in defs:
+            return None
+        d = defs[local]
+        if d[0] == 'call':
+            c = d[1].get('callee') or ''
+            if c.endswith('long_file_name_as_ucs2_units'):
+                return 'S'
+            if c.endswith('Iterator::next'):
+                return None
+            for a in d[1]['args'][:1]:
+                p = op_place(a)
+                if p is not None:
+                    return origin(p['l'], depth + 1)
+            return None
+        rv = d[1]
+        if rv['k'] in ('use', 'cast'):
+            p = op_place(rv['a'])
+            return origin(p['l'], depth + 1) if p is not None else None
+        if rv['k'] in ('ref', 'rawptr'):
+            return origin(rv['p']['l'], depth + 1)
+        return None
+
+    nexts = {'S': [], 'Q': []}
+    for b, t in fn.calls():
+        if (t.get('callee') or '').endswith('Iterator::next') and t['args']:
+            p = op_place(t['args'][0])
+            o = origin(p['l']) if p is not None else None
+            if o:
+                nexts[o].append((b, t))
+    uses_eq = any((t.get('callee') or '').endswith(('Iterator::eq', 'Iterator::eq_by', 'Iterator::cmp')) for b, t in fn.calls())
+    if uses_eq and not (nexts['S'] or nexts['Q']):
+        rep.oblige('N5b', fn.name, ok=True, sample={'fn': fn.name, 'how': 'compares with Iterator::eq'})
+        return
+    if not nexts['S'] or not nexts['Q']:
+        rep.oblige('N5b', fn.name, ok=False, nontrivial=True)
+        rep.violation('N5b', vkey('N5b', fn.name, 'no-lockstep', ''), fn.loc(fn.span),
+                      '%s does not walk both the stored and the requested name (stored: %d next() sites, requested: %d)'
+                      % (fn.name, len(nexts['S']), len(nexts['Q'])))
+        return
+    # exhaustion edges and exhaustion-encoding results per sequence
+    exhaust = {'S': set(), 'Q': set()}
+    encodes = {}
+    for cls, lst in nexts.items():
+        for b, t in lst:
+            D = t['dest']['l']
+            for bi in fn.reachable():
+                tt = fn.blocks[bi]['term']
+                if tt['k'] == 'switch':
+                    src = switch_source(fn, bi)
+                    if src and src['kind'] == 'discr' and src['place']['l'] == D:
+                        exhaust[cls] |= {(bi, x) for v, x in tt['targets'] if v == 0}
+                        if not any(v == 0 for v, _ in tt['targets']):
+                            exhaust[cls].add((bi, tt['otherwise']))
+                if tt['k'] == 'call' and (tt.get('callee') or '').endswith('Option::is_none') and tt['args']:
+                    pa = op_place(tt['args'][0])
+                    src_l = pa['l'] if pa is not None else None
+                    # the argument is (a reference to) the result of this next()
+                    seen = 0
+                    while src_l is not None and src_l != D and seen < 6:
+                        dd = defs.get(src_l)
+                        seen += 1
+                        if dd and dd[0] == 'stmt' and dd[1]['k'] in ('ref', 'use'):
+                            src_l = dd[1]['p']['l'] if dd[1]['k'] == 'ref' else (op_place(dd[1]['a']) or {}).get('l')
+                        else:
+                            src_l = None
+                    if src_l == D:
+                        encodes[(bi, tt['dest']['l'])] = cls
+    problems = []
+    n_true = 0
+    for bi in sorted(fn.reachable()):
+        cands = []
+        for s in fn.blocks[bi]['stmts']:
+            if s['k'] == 'assign' and s['lhs']['l'] == 0 and not s['lhs']['p']:
+                c = op_const(s['rv']['a']) if s['rv']['k'] == 'use' else None
+                if c is not None and c.get('val') == 0:
+                    continue  # `false`
+                cands.append(None)
+        tt = fn.blocks[bi]['term']
+        if tt['k'] == 'call' and tt['dest']['l'] == 0 and not tt['dest']['p']:
+            cands.append(encodes.get((bi, 0)))
+        for enc in cands:
+            n_true += 1
+            for cls in ('S', 'Q'):
+                if enc == cls:
+                    continue
+                reach = fn.reach_from([0], cut_edges=exhaust[cls])
+                if bi in reach:
+                    problems.append('a result that can be `true` (bb%d) is reachable without having seen the end of the %s name'
+                                    % (bi, 'stored' if cls == 'S' else 'requested'))
+    ok = not problems and n_true > 0
+    rep.oblige('N5b', fn.name, ok=ok, nontrivial=True, sample={'fn': fn.name, 'true-capable results': n_true})
+    if not ok:
+        rep.violation('N5b', vkey('N5b', fn.name, 'both-exhausted', ''), fn.loc(fn.span),
+                      '%s can report two names as equal when one is only a prefix of the other: %s' % (
+                          fn.name, '; '.join(sorted(set(problems))) or 'no result that can be true was found'))
